@@ -7,7 +7,10 @@
 
   Quantification: every operation list (open / request / outcome of each blocking I/O call /
   several reads of the mux receive loop returning without a yield in between, `burst` /
-  timeout with the outcome of the re-connect / ping due / ping silence / close), of any
+  such reads together with a failing read, a failing write or a `Close()` that lands in the
+  middle of the drain they cause — before the reads are taken, before the `_ProcessReply`
+  greenlets of their frames run, or after those ran and before the greenlets they woke resume,
+  `race` / timeout with the outcome of the re-connect / ping due / ping silence / close), of any
   length, subject only to the hypotheses `comp.wf` spells out (an I/O outcome needs a greenlet
   blocked in that I/O call; request ids are fresh; for the mux transport see Adapter/MuxT.lean).
   The per-step theorems hold in every state satisfying the invariant `Inv`, which
@@ -16,6 +19,7 @@
 -/
 import ScalesModel.Proofs.SerialTheorems
 import ScalesModel.Proofs.MuxTTheorems
+import ScalesModel.Proofs.MuxTRaceTheorems
 namespace Scales.C08
 open Scales.Transport
 
@@ -188,6 +192,134 @@ theorem C08_mux_open_carries (s : MuxT.St) (id tag : Nat) (hop : s.cstate = .ope
         (s'.wr .ok).2.sent = [it] ∧ MuxT.qItems (s'.wr .ok).1 = s'.sendQ) :=
   MuxT.open_carries s id tag hop hno
 
+/-! ### events in the middle of a drain (`race`) -/
+
+/-- while `_OpenImpl` waits for the handshake's Rping the open result is pending, the transport
+    reports `idle` and the ping is outstanding — in every reachable state -/
+theorem C08_mux_opening_means_pending (ops : List MuxT.Op)
+    (hop : (MuxT.runOps MuxT.St.init ops).opening = true) :
+    (MuxT.runOps MuxT.St.init ops).openRes = .pending ∧ (MuxT.runOps MuxT.St.init ops).cstate = .idle ∧
+    (MuxT.runOps MuxT.St.init ops).pingWait = true :=
+  MuxT.invO_reachable ops hop
+
+/-- **after a race the transport is closed.**  The receive loop reads `rs` (any frames, any
+    outcomes) without yielding, and in the same drain a failing next read of the receive loop, a
+    failing write of the send loop or a `Close()` lands at any of the three positions (`hitOk`:
+    the greenlet concerned exists).  Afterwards the transport reports `closed`, both loops, the
+    ping loop and the ping helper are gone, no `_ProcessReply` greenlet is left, `_OpenImpl` is not
+    waiting, tag map and send queue are empty; the fault signal was raised exactly once if the
+    race contains a connection failure and not at all if its only event is the `Close()`; an open
+    that was pending has failed, one that had completed is untouched.  In particular the
+    `_OpenImpl` greenlet that the handshake's Rping woke just before the failure does not declare
+    the transport Open (repair F16). -/
+theorem C08_mux_race_closed_and_signalled (s : MuxT.St) (rs : List (IOOut × MuxT.Frame))
+    (pos : MuxT.Pos) (x : MuxT.Hit) (hinv : MuxT.Inv s) (hrl : s.rl ≠ .dead)
+    (hok : MuxT.hitOk s rs pos x = true) :
+    (MuxT.stepOut s (.race rs pos x)).1.cstate = .closed ∧
+    (MuxT.stepOut s (.race rs pos x)).2.eff.faults = (if MuxT.raceFails rs pos x then 1 else 0) ∧
+    (MuxT.stepOut s (.race rs pos x)).1.sl = .dead ∧ (MuxT.stepOut s (.race rs pos x)).1.rl = .dead ∧
+    (MuxT.stepOut s (.race rs pos x)).1.pingLoop = false ∧
+    (MuxT.stepOut s (.race rs pos x)).1.pingWait = false ∧
+    (MuxT.stepOut s (.race rs pos x)).1.opening = false ∧
+    (MuxT.stepOut s (.race rs pos x)).1.hasOpenResult = false ∧
+    (MuxT.stepOut s (.race rs pos x)).1.tagMap = [] ∧ (MuxT.stepOut s (.race rs pos x)).1.sendQ = [] ∧
+    (MuxT.stepOut s (.race rs pos x)).1.pending = [] ∧
+    (MuxT.stepOut s (.race rs pos x)).1.openRes = (if s.openRes = .pending then .failed else s.openRes) :=
+  MuxT.race_closed_and_signalled s rs pos x hinv hrl hok
+
+/-- **F16 at the level of the transport.**  In every reachable state in which `_OpenImpl` waits
+    for the handshake's Rping: whatever the receive loop reads in a drain (the Rping among the
+    frames or not) and wherever in that drain a failing read, a failing write or a `Close()`
+    lands — in particular after the Rping was dispatched and before `_OpenImpl` resumes —, the
+    transport ends up `closed`, `Open()` has failed, the fault signal was raised once (not for a
+    lone `Close()`), nothing was handed to anybody, and the next request is rejected on the spot
+    and changes nothing.  The transport never reports `open`. -/
+theorem C08_mux_race_during_handshake_fails_open (ops : List MuxT.Op) (rs : List (IOOut × MuxT.Frame))
+    (pos : MuxT.Pos) (x : MuxT.Hit) (hop : (MuxT.runOps MuxT.St.init ops).opening = true)
+    (hrl : (MuxT.runOps MuxT.St.init ops).rl ≠ .dead)
+    (hok : MuxT.hitOk (MuxT.runOps MuxT.St.init ops) rs pos x = true) :
+    (MuxT.stepOut (MuxT.runOps MuxT.St.init ops) (.race rs pos x)).1.cstate = .closed ∧
+    (MuxT.stepOut (MuxT.runOps MuxT.St.init ops) (.race rs pos x)).1.openRes = .failed ∧
+    (MuxT.stepOut (MuxT.runOps MuxT.St.init ops) (.race rs pos x)).2.eff.faults =
+      (if MuxT.raceFails rs pos x then 1 else 0) ∧
+    (MuxT.stepOut (MuxT.runOps MuxT.St.init ops) (.race rs pos x)).2.eff.dels = [] ∧
+    ∀ id tag,
+      ((MuxT.stepOut (MuxT.runOps MuxT.St.init ops) (.race rs pos x)).1.request id tag).1 =
+        (MuxT.stepOut (MuxT.runOps MuxT.St.init ops) (.race rs pos x)).1 ∧
+      ((MuxT.stepOut (MuxT.runOps MuxT.St.init ops) (.race rs pos x)).1.request id tag).2.eff.dels =
+        [(id, Resp.other)] := by
+  obtain ⟨h1, h2, h3, h4, h5⟩ := MuxT.race_during_handshake_fails_open ops rs pos x hop hrl hok
+  exact ⟨h1, h2, h3, h4, fun id tag => by rw [h5 id tag]; exact ⟨rfl, rfl⟩⟩
+
+/-- **each in-flight request is completed exactly once by a race, over whole histories.**  Whatever
+    happened before and whatever happens afterwards: a request that is in the tag map when a race
+    begins is handed a response in that very operation — its reply, if that was among the frames
+    and was dispatched before the event (position `mid`), otherwise a `ClientError` — and that is
+    the only response it is handed in the whole history. -/
+theorem C08_mux_race_inflight_answered_exactly_once (pre : List MuxT.Op)
+    (rs : List (IOOut × MuxT.Frame)) (pos : MuxT.Pos) (x : MuxT.Hit) (post : List MuxT.Op)
+    (h : MuxT.comp.wf () (pre ++ .race rs pos x :: post) = true) (tag id : Nat)
+    (hin : (tag, id) ∈ (MuxT.runOps MuxT.St.init pre).tagMap) :
+    (∃ r, (id, r) ∈ (MuxT.stepOut (MuxT.runOps MuxT.St.init pre) (.race rs pos x)).2.eff.dels ∧
+        (r = Resp.stream ∨ r = Resp.cerr)) ∧
+    MuxT.responsesTo id (MuxT.comp.modelTrace () (pre ++ .race rs pos x :: post)) = 1 :=
+  MuxT.race_inflight_answered_exactly_once pre rs pos x post h tag id hin
+
+/-- **outside the opening handshake the position `mid` is nothing new**: whenever `_OpenImpl` is not
+    waiting for the handshake's Rping, a race at `mid` is the `burst` of its reads followed by its
+    event, as two operations one after the other would have it — a reply is delivered, then the
+    rest of the tag map is failed; a periodic Rping only wakes the ping helper, which finds its
+    ping answered. -/
+theorem C08_mux_race_mid_sequential_outside_handshake (s : MuxT.St) (rs : List (IOOut × MuxT.Frame))
+    (x : MuxT.Hit) (hno : s.opening = false) :
+    (s.race rs .mid x).1 = ((s.burst rs).1.hit x).1 ∧
+    (s.race rs .mid x).2.eff = MuxT.effApp (s.burst rs).2.eff ((s.burst rs).1.hit x).2 :=
+  MuxT.race_mid_sequential s rs x hno
+
+/-- **during the opening handshake the position of the event does not matter** (after repair
+    F16): in every reachable state in which `_OpenImpl` waits for the handshake's Rping, whether
+    the failing read, the failing write or the `Close()` runs before the `_ProcessReply` greenlet
+    of the Rping or between it and the resumption of `_OpenImpl`, the operation ends in the same
+    state with the same effects. -/
+theorem C08_mux_race_handshake_position_irrelevant (ops : List MuxT.Op)
+    (rs : List (IOOut × MuxT.Frame)) (x : MuxT.Hit)
+    (hop : (MuxT.runOps MuxT.St.init ops).opening = true)
+    (hrl : (MuxT.runOps MuxT.St.init ops).rl ≠ .dead)
+    (hok : MuxT.hitOk (MuxT.runOps MuxT.St.init ops) rs .mid x = true) :
+    (MuxT.runOps MuxT.St.init ops).race rs .mid x = (MuxT.runOps MuxT.St.init ops).race rs .pre x :=
+  MuxT.race_handshake_position_irrelevant _ rs x (MuxT.inv_reachable ops) (MuxT.invO_reachable ops) hop hrl hok
+
+/-- **the code as found (before repair F16), counterexample.**  Tping written, the Rping is read
+    and dispatched, the next read fails, `_OpenImpl` as it was resumes: the transport reports
+    `open` after a connection failure whose fault signal was raised, with both loops dead.  The
+    repaired model ends `closed` on the same input. -/
+theorem C08_mux_race_as_found_counterexample :
+    ((MuxT.runOps MuxT.St.init [.openT .ok, .wr .ok]).raceMidAsFound
+        [(.ok, .junk), (.ok, .rping)] .rdRaise).1.cstate = .opened ∧
+    ((MuxT.runOps MuxT.St.init [.openT .ok, .wr .ok]).raceMidAsFound
+        [(.ok, .junk), (.ok, .rping)] .rdRaise).2.eff.faults = 1 ∧
+    ((MuxT.runOps MuxT.St.init [.openT .ok, .wr .ok]).raceMidAsFound
+        [(.ok, .junk), (.ok, .rping)] .rdRaise).1.rl = .dead ∧
+    ((MuxT.runOps MuxT.St.init [.openT .ok, .wr .ok]).raceMidAsFound
+        [(.ok, .junk), (.ok, .rping)] .rdRaise).1.sl = .dead ∧
+    ((MuxT.runOps MuxT.St.init [.openT .ok, .wr .ok]).race
+        [(.ok, .junk), (.ok, .rping)] .mid .rdRaise).1.cstate = .closed := by decide
+
+/-- **a connection that is accepted and answered, reset or ended at once** (`openBurst`: the outcomes
+    of the receive loop's first reads are there when it starts, before the send loop and the ping
+    helper spawned by the same `_OpenImpl` have run) is the open followed by the burst: same state,
+    same fault signals, same responses, one connect.  With `C08_mux_shutdown_fails_all_once` and
+    `C08_mux_closed_and_signalled` (whose `connFailure` covers it): a reset right after the connect
+    leaves the transport closed, the open failed and the fault signal raised once. -/
+theorem C08_mux_open_burst_is_open_then_burst (s : MuxT.St) (rs : List (IOOut × MuxT.Frame)) :
+    (MuxT.stepOut s (.openBurst rs)).1 = (MuxT.stepOut (MuxT.stepOut s (.openT .ok)).1 (.burst rs)).1 ∧
+    (MuxT.stepOut s (.openBurst rs)).2.eff.faults =
+      (MuxT.stepOut (MuxT.stepOut s (.openT .ok)).1 (.burst rs)).2.eff.faults ∧
+    (MuxT.stepOut s (.openBurst rs)).2.eff.dels =
+      (MuxT.stepOut (MuxT.stepOut s (.openT .ok)).1 (.burst rs)).2.eff.dels ∧
+    (MuxT.stepOut s (.openBurst rs)).2.eff.conns = (MuxT.stepOut s (.openT .ok)).2.eff.conns :=
+  ⟨rfl, rfl, rfl, rfl⟩
+
 /-- **ThriftMux transport, specification level.** -/
 theorem C08_mux_model_satisfies_spec (ops : List MuxT.Op) (h : MuxT.comp.wf () ops = true) :
     MuxT.comp.spec () (MuxT.comp.modelTrace () ops) = .ok :=
@@ -235,6 +367,32 @@ example : connFailure (runOps St.init [.openT .ok, .wr .ok, .rd .ok .junk, .rd .
 example : (stepOut (runOps St.init [.openT .ok, .wr .ok, .rd .ok .junk, .rd .ok .rping, .req 1 2, .req 2 3,
     .wr .ok, .wr .ok]) (.burst [(.ok, .junk), (.ok, .reply 3), (.ok, .junk), (.ok, .reply 2)])).2.eff
     = { dels := [(2, .stream), (1, .stream)] } := by decide
+-- the connection is accepted and reset at once
+example : comp.wf () [.openBurst [(.raise, .junk)], .look, .req 1 0] = true := by decide
+example : connFailure St.init (.openBurst [(.ok, .junk), (.ok, .rping), (.eof, .junk)]) = true := by decide
+example : (comp.modelTrace () [.openBurst [(.raise, .junk)]]).map
+    (fun p => (p.2.state, p.2.openRes, p.2.faults, p.2.conns)) = [(.closed, .failed, 1, 1)] := by decide
+-- the handshake's Rping is dispatched, the next read fails, and only then does `_OpenImpl` resume
+example : comp.wf () [.openT .ok, .wr .ok, .race [(.ok, .junk), (.ok, .rping)] .mid .rdRaise, .look, .req 1 0]
+    = true := by decide
+example : (comp.modelTrace () [.openT .ok, .wr .ok, .race [(.ok, .junk), (.ok, .rping)] .mid .rdRaise]).map
+    (fun p => (p.2.state, p.2.openRes, p.2.faults)) =
+    [(.idle, .pending, 0), (.idle, .pending, 0), (.closed, .failed, 1)] := by decide
+example : (runOps St.init [.openT .ok, .wr .ok]).opening = true ∧
+    hitOk (runOps St.init [.openT .ok, .wr .ok]) [(.ok, .junk), (.ok, .rping)] .mid .rdEof = true := by decide
+-- the same frames without the failure open the transport
+example : (runOps St.init [.openT .ok, .wr .ok, .burst [(.ok, .junk), (.ok, .rping)]]).cstate = .opened := by
+  decide
+-- a reply is dispatched, then the write of the next request fails: request 1 has its reply, request 2 the error
+example : comp.wf () [.openT .ok, .wr .ok, .rd .ok .junk, .rd .ok .rping, .req 1 2, .wr .ok, .req 2 3,
+    .race [(.ok, .junk), (.ok, .reply 2)] .mid .wr, .look] = true := by decide
+example : (stepOut (runOps St.init [.openT .ok, .wr .ok, .rd .ok .junk, .rd .ok .rping, .req 1 2, .wr .ok,
+    .req 2 3]) (.race [(.ok, .junk), (.ok, .reply 2)] .mid .wr)).2.eff
+    = { faults := 1, dels := [(1, .stream), (2, .cerr)] } := by decide
+-- the same with the failing write noticed before the reply is dispatched: both get the error
+example : (stepOut (runOps St.init [.openT .ok, .wr .ok, .rd .ok .junk, .rd .ok .rping, .req 1 2, .wr .ok,
+    .req 2 3]) (.race [(.ok, .junk), (.ok, .reply 2)] .pre .wr)).2.eff
+    = { faults := 1, dels := [(1, .cerr), (2, .cerr)] } := by decide
 -- the Rping of the opening handshake with the end of the stream right behind it: the open fails
 example : (runOps St.init [.openT .ok, .wr .ok, .burst [(.ok, .junk), (.ok, .rping), (.eof, .junk)]]).cstate
     = .closed := by decide
